@@ -12,7 +12,7 @@
 From Coq Require Import List ZArith Bool Arith Lia Permutation.
 Import ListNotations.
 From QV Require Import Model.C14 Proofs.C14 Model.C13 Model.C13_inst
-                       Proofs.C13 Proofs.C13_sde Proofs.C13_ens.
+                       Proofs.C13 Proofs.C13_sde Proofs.C13_ens Proofs.C13_imp.
 
 (* ---------------------------------------------------------------- seeds *)
 
@@ -113,6 +113,31 @@ Theorem C13_mc_draw_order :
     (nchan _ _ _ P <> 1 -> length (tr_coll tr) <= n_which (tr_draws tr)).
 Proof. intros. unfold mc_one. apply mc_draw_order. Qed.
 Print Assumptions C13_mc_draw_order.
+
+(* improved sampling (MCSolver._no_jump_simulation + _run_improved_sampling): the
+   no-jump trajectory is computed first on the same integrator, its final norm
+   is the floor of every threshold u -> floor + (1 - floor) u.  Floor and
+   trajectory do not depend on what the integrator held before ... *)
+Definition imp_one {U T Y} (P : mcp U T Y) (stream : seedid -> nat -> U) fuel s none_seed seed t0 y0 ts :=
+  improved_one U T Y stream (zeroU _ _ _ P) (oneU _ _ _ P) (leU _ _ _ P) (ltT _ _ _ P) (mix _ _ _ P)
+    (nchan _ _ _ P) (prob _ _ _ P) (ode_step _ _ _ P) (find _ _ _ P) (choose _ _ _ P)
+    (jump _ _ _ P) (renorm _ _ _ P) fuel s none_seed seed t0 y0 ts.
+
+Theorem C13_improved_sampling_forgets_history :
+  forall U T Y (P : mcp U T Y) stream fuel (s s' : mci U T Y) none_seed seed t0 y0 ts,
+    imp_one P stream fuel s none_seed seed t0 y0 ts = imp_one P stream fuel s' none_seed seed t0 y0 ts.
+Proof. intros. unfold imp_one. apply improved_history_independent. Qed.
+Print Assumptions C13_improved_sampling_forgets_history.
+
+(* ... and the no-jump trajectory consumes no random number and records no
+   collapse, as long as a norm is never <= the threshold 0 *)
+Theorem C13_no_jump_trajectory_draws_nothing :
+  forall U T Y (P : mcp U T Y) stream fuel (s : mci U T Y) seed t0 y0 ts fl,
+    (forall y, leU _ _ _ P (prob _ _ _ P y) (zeroU _ _ _ P) = false) ->
+    let tr := fst (mc_one P stream fuel s seed t0 y0 ts true fl) in
+    tr_draws tr = [] /\ tr_coll tr = [].
+Proof. intros U T Y P stream fuel s seed t0 y0 ts fl H. unfold mc_one. now apply no_jump_draws_nothing. Qed.
+Print Assumptions C13_no_jump_trajectory_draws_nothing.
 
 (* -------------------------------------------------------- diffusive trajectory *)
 Record sdp (V Y : Type) := {
@@ -385,11 +410,21 @@ Definition ex_prob : mcprob :=
 Example C13_nonvacuous_mc :
   i_observe ex_prob
     [ [2^1199; 0; 0]; [2^1197; 2^1198; 2^1199 + 1; 2^1199; 1] ]
-    [ (0, 1%nat, [8; 16], false); (0, 2%nat, [8; 16; 24], false) ] =
+    [ (0, 1%nat, [8; 16], false, 0); (0, 2%nat, [8; 16; 24], false, 0) ] =
   [ (Some [(8, 0%nat, 0); (16, 0%nat, 0)], [(4, 0%nat)], [(0, 0%nat); (1, 1%nat); (0, 2%nat)]);
     (Some [(8, 1%nat, 0); (16, 1%nat, 0); (24, 1%nat, 0)], [(4, 0%nat); (8, 1%nat)],
      [(0, 0%nat); (1, 1%nat); (0, 2%nat); (1, 3%nat); (0, 4%nat)]) ].
 Proof. vm_compute. reflexivity. Qed.
+
+(* improved sampling on the same problem: no-jump run (no draw), then a
+   trajectory with floor 1/4 and first draw 1/2: threshold 1/4 + 3/4 * 1/2 = 5/8 *)
+Example C13_nonvacuous_improved :
+  i_observe ex_prob [ []; [2^1199; 0; 0] ]
+    [ (0, 1%nat, [8], true, 0); (0, 1%nat, [8], false, 2^1198) ] =
+  [ (Some [(8, 1%nat, 0)], [], []);
+    (Some [(8, 0%nat, 0)], [(4, 0%nat)], [(0, 0%nat); (1, 1%nat); (0, 2%nat)]) ] /\
+  i_mix (2^1199) (2^1198) = 5 * 2^1197.
+Proof. vm_compute. split; reflexivity. Qed.
 
 (* diffusive: dt = 3 time units, tlist 0,6,12: two batches of two rows *)
 Example C13_nonvacuous_sde :
